@@ -162,6 +162,9 @@ def _c06():
     hs += disp_harnesses(["access", "apply"], tags=qt)
     hs += disp_harnesses(["access", "apply"], tier="thorough", tags=[t for t in TAGS if t not in qt])
     hs += disp_harnesses(["apply_type"] + DISP_UN, tier="thorough")
+    # Equal / NotEqual on written-out shapes: the worklist they keep on the operand stack must be gone however early they decide
+    eqq = ("c11_shape_equal_list2_list1", "c11_shape_equal_list3_unit_mid", "c11_shape_equal_list_pair_unit", "c11_shape_not_equal_nested_pairs")
+    hs += [dict(h, tier="quick" if h["name"] in eqq else "thorough") for h in _c11()["harnesses"] if h["name"].startswith("c11_shape_")]
     hs += STORE_FRAMES
     return {
         "claim": "Arity lemma: one step of every instruction from an arbitrary valid state that returns Ok changes the register, value-stack and frame depths by exactly the instruction's fixed arity, leaves the registers below its operands untouched, and hands back any registers it borrowed as a worklist.",
@@ -197,7 +200,7 @@ def _c12():
 
 
 EQ_SCALAR = "unit true false number char byte symbol symbol_list char_list byte_list".split()
-SHAPES = [("pair_pair", "(n0 = n1) vs (n2 = n3)"), ("pair_pair_shared", "(n0 = n1) vs (n0 = n3), first component shared"), ("pair_self", "the same pair twice"), ("nested_pairs", "((n0 = n1) = n2) vs ((n3 = n4) = n5)"), ("list2_list2", "(n0 n1) vs (n2 n3)"), ("list2_list1", "(n0 n1) vs (n2): longer LEFT operand"), ("list1_list2", "(n0) vs (n1 n2)"), ("empty_empty", "two empty lists"), ("list2_concat_list_item", "(n0 n1) vs ((n2) <> n3)"), ("concat_items_list2", "(n0 <> n1) vs (n2 n3)"), ("concat_lists_concat_items", "((n0) <> (n1)) vs (n2 <> n3)"), ("list_of_pair", "((n0 = n1),) vs ((n2 = n3),)"), ("pair_with_symbol", "(n0 = :s) vs (n2 = n3)"), ("list3_concat", "(n0 n1 n2) vs ((n3 n4) <> n5)")]
+SHAPES = [("pair_pair", "(n0 = n1) vs (n2 = n3)"), ("pair_pair_shared", "(n0 = n1) vs (n0 = n3), first component shared"), ("pair_self", "the same pair twice"), ("nested_pairs", "((n0 = n1) = n2) vs ((n3 = n4) = n5)"), ("list2_list2", "(n0 n1) vs (n2 n3)"), ("list2_list1", "(n0 n1) vs (n2): longer LEFT operand"), ("list1_list2", "(n0) vs (n1 n2)"), ("empty_empty", "two empty lists"), ("list2_concat_list_item", "(n0 n1) vs ((n2) <> n3)"), ("concat_items_list2", "(n0 <> n1) vs (n2 n3)"), ("concat_lists_concat_items", "((n0) <> (n1)) vs (n2 <> n3)"), ("list_of_pair", "((n0 = n1),) vs ((n2 = n3),)"), ("pair_with_symbol", "(n0 = :s) vs (n2 = n3)"), ("list3_concat", "(n0 n1 n2) vs ((n3 n4) <> n5)"), ("list3_unit_mid", "(n0 () n2) vs (n3 n4 n5): a unit leaf in the middle, the comparison decides while item pairs are still queued"), ("list_pair_unit", "((n0 = ()) n1) vs ((n2 = n3) n4)")]
 EQ_STRUCT = [("pair", "pair"), ("list", "list"), ("list", "concatenation"), ("concatenation", "list"), ("concatenation", "concatenation"), ("pair", "list")]
 
 
@@ -401,7 +404,8 @@ QUICK_SETS = {
     "C05": "prog_value_sub prog_if_unit prog_and_skip prog_side_effect prog_if_else_t prog2_add prog2_value_sub prog2_if_else_t prog2_and_tis".split(),
     "C06": ("step_put step_push_value step_update_value step_end_side_effect step_jump_to step_reapply step_end_expression step_make_pair step_type_of "
             "c08_op_add c08_op_divide c10_truth_jump_if_true c10_truth_and disp_access_pair disp_access_expression disp_apply_pair disp_apply_expression "
-            "prog_if_else_t prog_if_unit prog_chain_nodefault_miss").split(),
+            "prog_if_else_t prog_if_unit prog_chain_nodefault_miss "
+            "c11_shape_equal_list2_list1 c11_shape_equal_list3_unit_mid c11_shape_equal_list_pair_unit c11_shape_not_equal_nested_pairs").split(),
     "C07": ("c09_ii_plus c09_ii_subtract c09_ii_multiply c09_ii_divide c09_ii_integer_divide c09_ii_remainder_unit_conditions c09_ii_remainder_small_divisor "
             "c09_ii_power_small_base c09_ii_power_negative_exponent c09_i_unary c09_ii_bitwise c09_ii_shift_left c09_ii_shift_right "
             "disp_access_pair disp_access_byte_list disp_access_range disp_apply_pair disp_apply_char_list store_basic_readback_x2 store_basic_readback").split(),
